@@ -97,6 +97,10 @@ fn doms_ix() -> Vec<Vec<u64>> {
 /// The documented cost rule (README): stride-matching prefix free; then 4 bytes per entry until the first value above
 /// u32::MAX, 8 bytes per entry from there on.
 fn doc_cost(seq: &[usize]) -> usize {
+    doc_cost_prefix(seq).0
+}
+/// (documented cost in bytes, length of the stride-absorbed prefix)
+fn doc_cost_prefix(seq: &[usize]) -> (usize, usize) {
     let mut st = Stride::default();
     let mut k = 0;
     while k < seq.len() {
@@ -122,7 +126,7 @@ fn doc_cost(seq: &[usize]) -> usize {
         big = big || *x > u32::MAX as usize;
         cost += if big { 8 } else { 4 };
     }
-    cost
+    (cost, k)
 }
 fn ix_body<C: IndexContainer<usize> + Clone>(v: &[u64], compressed: bool, list: bool) {
     let want: Vec<usize> = v[1..5].iter().take(v[5] as usize).map(|k| ALPHA[*k as usize] as usize).collect();
@@ -147,6 +151,8 @@ fn ix_body<C: IndexContainer<usize> + Clone>(v: &[u64], compressed: bool, list: 
     let used: usize = hp.iter().map(|p| p.0).sum();
     if compressed {
         vassert!(hp.len() == 2, "VF:index.heap.pairs");
+        // C18: every entry that is not absorbed by the stride is accounted with at least 4 bytes
+        vassert!(used >= 4 * (want.len() - doc_cost_prefix(&want).1), "VF:index.heap.used_below_entries");
         vassert!(used == doc_cost(&want), "VF:index.heap.cost_differs_from_documented_rule");
     } else if list {
         let mut big = false;
@@ -155,6 +161,7 @@ fn ix_body<C: IndexContainer<usize> + Clone>(v: &[u64], compressed: bool, list: 
             big = big || *x > u32::MAX as usize;
             cost += if big { 8 } else { 4 };
         }
+        vassert!(used >= 4 * want.len(), "VF:index.heap.used_below_entries");
         vassert!(used == cost, "VF:index.heap.list_cost_differs_from_documented_rule");
     } else {
         vassert!(used == 8 * want.len(), "VF:index.heap.vec_cost");
@@ -346,7 +353,7 @@ pub fn harnesses() -> Vec<H> {
     vec![
         H { name: "flatstack_sequence", props: &["C03", "C09"], nargs: 8, pre: pre_fs, doms: doms_fs, run: run_fs, panic_ok: false,
             bound: "FlatStack over SliceRegion<MirrorRegion<u8>>/Vec, ConsecutiveIndexPairs<OwnedRegion<u8>>/IndexOptimized and /IndexList: 0..4 items from a 4-value pool built by copy / extend / from_iter; get, iter, cloned iterator, size_hint, into_iter, reserve, clone, clear; out-of-bounds probe", kani: false },
-        H { name: "index_containers", props: &["C05", "C19", "C08", "C10", "C18"], nargs: 7, pre: pre_ix, doms: doms_ix, run: run_ix, panic_ok: false,
+        H { name: "index_containers", props: &["C05", "C19", "C08", "C10", "C18", "C01", "C02", "C03"], nargs: 7, pre: pre_ix, doms: doms_ix, run: run_ix, panic_ok: false,
             bound: "IndexOptimized, IndexList<Vec<u32>,Vec<u64>>, Vec<usize>: all sequences of length 0..4 over the 12-value transition alphabet {0,1,2,3,4,5,6,8,u32::MAX,u32::MAX+1,2^63,usize::MAX} by push or extend; index/len/iter/clone/reserve/clear/with_capacity; heap bytes equal the documented cost rule", kani: false },
         H { name: "dense_indices_free", props: &["C19"], nargs: 3, pre: pre_dense, doms: doms_dense, run: run_dense, panic_ok: false,
             bound: "FlatStack<ConsecutiveIndexPairs<StringRegion>, IndexOptimized> and FlatStack<ColumnsRegion<MirrorRegion<u8>>, IndexOptimized> with 0..40 items: own index container reports 0 used bytes", kani: false },
